@@ -221,7 +221,8 @@ class Intersection:
             ggrad[0, 1] = -np.inner(dati, dbuj)
             ggrad[1, 0] = ggrad[0, 1]
             denom = np.linalg.det(ggrad)
-            if np.abs(denom) < 1e-9:
+            # Relative test: the determinant scales with the tangents' lengths
+            if np.abs(denom) <= 1e-9 * np.abs(ggrad[0, 0] * ggrad[1, 1]):
                 return tuple()  # no convergence
             deltapair = np.linalg.solve(ggrad, grad)
             pair -= deltapair
